@@ -206,7 +206,7 @@ def build_program(rs):
             ns["setup"] = setup_late
         ns["execute"] = _cb(f"{n}.execute")
         for attr, default in c.get("resets", {}).items():
-            ns[attr] = will_reset_to(default)
+            ns[attr] = will_reset_to(NO_TARGET if default == "<NO_TARGET>" else default)
             CTX.snap_attrs.append((n, attr))
         for attr, value in c.get("shadow", {}).items():
             ns[attr] = value  # a plain class attribute that hides a marker of the base class
@@ -487,6 +487,7 @@ def run_program(case, with_faults=True, with_writes=True):
             for w in case.get("writes", []):
                 CTX.writes.setdefault((w["by"], w["n"]), []).append((w["comp"], w["attr"], w["value"]))
         drv = simenv.RobotDriver(robot_cls, case.get("fms", False))
+        drv.progress = lambda: len(CTX.log)
         CTX.robot = drv.robot
         inst = simenv.nt()
         mark = [0]
@@ -534,6 +535,7 @@ def run_program(case, with_faults=True, with_writes=True):
             run.steps.append(st_)
             return st_
 
+        run.stuck = None
         drv.start()
         record("disabled", "boot")
         sel = rs.get("sel")
@@ -587,6 +589,12 @@ def run_program(case, with_faults=True, with_writes=True):
         POKES[0] += drv.pokes
         run.fired = list(CTX.fired)
         run.setup_probe = dict(CTX.setup_probe)
+    except simenv.RobotStuck as e:
+        run.stuck = str(e)
+        run.exc = drv.exc if drv is not None else None
+        run.fired = list(CTX.fired)
+        run.setup_probe = dict(CTX.setup_probe)
+        run.order = getattr(run, "order", [])
     finally:
         if drv is not None and drv.thread.is_alive():
             try:
@@ -649,6 +657,17 @@ _WRITE_CODE = st.lists(st.tuples(_I(0, 7), _I(1, 6), _I(0, 7), _I(0, 4)), max_si
 _CHUNK_CODE = st.lists(st.lists(_I(1, 4_999), max_size=3), max_size=4)
 
 FB_NAMES = ["get_a", "b", "get_c2", "getter", "get_", "target_get_count", "widget_count", "_raw_counts"]  # "get_" may occur anywhere in a name
+class _Sentinel:
+    """a default that only makes sense by identity (NO_TARGET = object())"""
+
+    def __repr__(self):
+        return "<NO_TARGET>"
+
+    def __deepcopy__(self, memo):
+        return _Sentinel()  # a copy is a different object, as for object()
+
+
+NO_TARGET = _Sentinel()
 RESET_VALUES = [0, False, "v", 2.5, None]
 WRITE_VALUES = [1, True, "w", -7.5, 42]
 
@@ -697,6 +716,8 @@ def decode_robot(code):
             c["late_hooks"] = True
         c["resets"] = {(f"_r{j}" if (rv + j) % 3 == 0 else f"r{j}"): RESET_VALUES[(rv + j) % 5] for j in range(nres)}  # markers may be private names too
         c["base_resets"] = {f"b{j}": RESET_VALUES[(rv + 2 + j) % 5] for j in range(nbres)}
+        if nres == 2 and flags % 4 == 3:
+            c["resets"][sorted(c["resets"])[-1]] = "<NO_TARGET>"  # a sentinel object as default
         if nres and (rv + flags) % 3 == 0:
             c["init_marked"] = {sorted(c["resets"])[0]: 12345}  # the constructor assigns a marked attribute as well
         if nbres and rv == 3:
@@ -805,7 +826,7 @@ def robot_cases(pid, deep=False):
                     if (wcode[k % len(wcode)][0] + k) % 3 == 0:
                         f = not f
                         seg.append(f)
-        elif pid == "C06" and fms and fcode[0][1] >= 3:
+        elif pid in ("C06", "C05") and fms and fcode[0][1] >= 3:
             # with the FMS attached a raising callback must not disturb the lifecycle either
             case["faults"] = decode_faults(fcode, rs)
         elif pid in ("C10", "C11"):
@@ -878,6 +899,10 @@ class RobotLab(Lab):
 
     def check_alive_and_exc(self, case, run):
         """fault-free runs must never die"""
+        if getattr(run, "stuck", None):
+            if run.fired:
+                raise Violation(f"{self.pid}/robot-stuck-after-fault", f"{run.stuck}; faults fired: {[f[:2] for f in run.fired[:5]]}; case: {case}")
+            raise HarnessError(run.stuck)
         if run.exc is not None:
             raise Violation(f"{self.pid}/robot-died/{type(run.exc).__name__}", f"startCompetition() ended with {run.exc!r}; case: {case}")
 
@@ -897,7 +922,10 @@ class C05(RobotLab):
     )
 
     def run_case(self, case):
-        run = run_program(case, with_faults=False)
+        # with the FMS attached some cases carry a fault plan: a raising callback must not change what runs
+        run = run_program(case, with_faults=bool(case.get("fms")))
+        if run.exc is not None and isinstance(run.exc, (Injected, InjectedBase, InjectedAttr)):
+            return {"nontrivial": False, "classes": ["aborted-by-C07-root-cause"]}
         self.check_alive_and_exc(case, run)
         ex = Expect(case["robot"], run.order)
         P = case["robot"]["P"]
@@ -1026,6 +1054,11 @@ class C07(RobotLab):
         clean = run_program(case, with_faults=False)
         self.check_alive_and_exc(case, clean)
         faulty = run_program(case, with_faults=True)
+        if getattr(faulty, "stuck", None):
+            if not faulty.fired:
+                raise HarnessError(faulty.stuck)
+            site = self.site_name(faulty.fired[0][0])
+            raise Violation(f"C07/robot-stuck/{site}", f"after the fault at {faulty.fired[0][:2]} ({len(faulty.fired)} faults fired so far) {faulty.stuck}; case: {case}")
         cl = self.classes_of(case, clean)
         fired = faulty.fired
         for site, n, _ in fired:
@@ -1140,6 +1173,8 @@ class C10(RobotLab):
                 if snap is not None:
                     for k, v in snap.items():
                         want = cur[k]
+                        if want == "<NO_TARGET>":
+                            want = NO_TARGET  # compared by identity below (== falls back to 'is' for plain objects)
                         if not (v == want and type(v) is type(want)):
                             what = "marked" if k in marked else "plain"
                             phase = "same-iteration" if k in dirty else "stale"
